@@ -9,7 +9,9 @@ import (
 	"flag"
 	"fmt"
 	"os"
+	"strconv"
 	"strings"
+	"time"
 )
 
 var generators = map[string]func(r *Rand, n int, thorough bool, emit func(string)){}
@@ -102,6 +104,13 @@ func main() {
 		}
 		g(NewRand(*seed), *n, *thorough, func(s string) { w.WriteString(s); w.WriteByte('\n') })
 	case "run":
+		// Every operation runs under a deadline (GFS_OP_DEADLINE seconds, default 120): an
+		// operation that does not return is reported as such and the process ends, because
+		// the runaway call cannot be stopped (the check re-runs the remaining lines).
+		deadline := 120 * time.Second
+		if v, err := strconv.Atoi(os.Getenv("GFS_OP_DEADLINE")); err == nil && v > 0 {
+			deadline = time.Duration(v) * time.Second
+		}
 		sc := bufio.NewScanner(os.Stdin)
 		sc.Buffer(make([]byte, 1<<20), 1<<26)
 		for sc.Scan() {
@@ -109,8 +118,17 @@ func main() {
 			if line == "" {
 				continue
 			}
-			w.WriteString(runOp(line))
-			w.WriteByte('\n')
+			done := make(chan string, 1)
+			go func() { done <- runOp(line) }()
+			select {
+			case out := <-done:
+				w.WriteString(out)
+				w.WriteByte('\n')
+			case <-time.After(deadline):
+				w.WriteString(fmt.Sprintf("panic=operation did not return within %v\n", deadline))
+				w.Flush()
+				os.Exit(3)
+			}
 		}
 	default:
 		os.Exit(2)
